@@ -2294,3 +2294,23 @@ package goatlang
 //@   ensures#scalars result.total == m.total && result.size == m.size && result.mask == m.mask && result.min == m.min && result.max == m.max
 //@   ensures#contents forall j int :: 0 <= j && j < len(m.pairs) ==> result.pairs[j] == m.pairs[j]
 //@   ensures#wf rh(result)
+//@
+//@ spec hasEmpty(m intMap) bool
+//@   def exists e int :: 0 <= e && e < len(m.pairs) && m.pairs[e].distance == 0
+//@ func (*intMap).insert
+//@   property C12 C03
+//@   axioms POW2
+//@   requires m != nil && rh(*m) && hasEmpty(*m) && !has(*m, key) && i == key
+//@   modifies elems(m.pairs)
+//@   nopanic
+//@   ensures#wf rh(*m)
+//@   ensures#stored trig(key, value) ==> holds(*m, key, value)
+//@   ensures#others forall k2 int, x Value :: trig(k2, x) && k2 != key ==> (holds(*m, k2, x) <==> old(holds(*m, k2, x)))
+//@ func (*intMap).insert loop 0
+//@   invariant#view forall k int, x Value :: trig(k, x) ==> ((holds(*m, k, x) || (pair.key == k && pair.value == x)) <==> (old(holds(*m, k, x)) || (k == key && x == value)))
+//@   invariant#bound 1 <= pair.distance && pair.distance <= m.size
+//@   invariant#home (pair.key & m.mask) + pair.distance - 1 == (i & m.mask) || (pair.key & m.mask) + pair.distance - 1 == (i & m.mask) + m.size
+//@   invariant#chain forall t int :: 0 <= t && t < len(m.pairs) && 1 <= cyc(i & m.mask, t, m.size) && cyc(i & m.mask, t, m.size) <= pair.distance - 1 ==> m.pairs[t].distance >= pair.distance - cyc(i & m.mask, t, m.size)
+//@   invariant#rh rh(*m)
+//@   invariant#fresh forall j int :: 0 <= j && j < len(m.pairs) && m.pairs[j].distance != 0 ==> m.pairs[j].key != pair.key
+//@   invariant#room hasEmpty(*m)
